@@ -698,7 +698,7 @@ def parse_natlists(out):
     return res
 
 
-MODEL_VOS = ["NumPy/ViewsAux.vo", "NumPy/Views.vo", "NumPy/Indexing.vo", "NumPy/ViewsRun.vo"]
+MODEL_VOS = ["NumPy/ViewsAux.vo", "NumPy/Views.vo", "NumPy/Indexing.vo", "NumPy/ViewsRun.vo", "NumPy/Spec.vo"]
 
 
 def correspond(ctx, family, rows, with_scatter=True, chunk=500):
